@@ -53,6 +53,8 @@ pub enum Step {
     /// land on the end instant displaced by whole cycles of the state's first component (for very
     /// long animations only whole cycles are still representable next to the end)
     ToEndCycles { cycles: i8 },
+    /// first advance in a state: land a few f32 steps before / after the end instant
+    ToEndUlps { ulps: i8 },
 }
 
 #[derive(Clone, Copy, Debug, PartialEq, Serialize, Deserialize)]
